@@ -41,6 +41,7 @@ type gCase struct {
 	reqs          []ccReq
 	sched         []int
 	noEnd         bool
+	onPanic       int // 0 = no OnPanic hook, else the id of its handler program
 }
 
 var ccAnyMethods = []string{"GET", "POST", "PUT", "PATCH", "DELETE", "OPTIONS", "HEAD", "CONNECT", "TRACE"}
@@ -216,6 +217,9 @@ func (g *gCase) setupOps() []string {
 	if g.notAllowed != nil {
 		ops = append(ops, "notallowed "+gInts(g.notAllowed))
 	}
+	if g.onPanic > 0 {
+		ops = append(ops, fmt.Sprintf("onpanic %d", g.onPanic))
+	}
 	return ops
 }
 
@@ -385,10 +389,78 @@ func (concEngine) Corpus() []Case {
 		routes: []gRoute{{gid: -1, methods: get, pattern: "/b", main: 100}},
 		reqs:   []ccReq{{"GET", "/b"}, {"GET", "/b"}},
 		sched:  []int{0, 0, 0, 0, 1}})
+	// a request panics and is recovered by an OnPanic hook that parks; meanwhile another request is served
+	// completely; then the hook writes the panic response. Both answer what they answer alone.
+	add("hook-parked", gCase{cache: -1, onPanic: 80,
+		progs:  map[int]string{80: "P,E801,ST500,W:" + hx("recovered") + ",P", 100: "SD:6b31:61,X,W:61", 101: "W:" + hx("item")},
+		routes: []gRoute{{gid: -1, methods: get, pattern: "/a", main: 100}, {gid: -1, methods: get, pattern: "/items/{id}", main: 101}},
+		reqs:   []ccReq{{"GET", "/a"}, {"GET", "/items/7"}, {"GET", "/a"}},
+		sched:  []int{0, 1, 0, 2, 0, 2, 1, 2}})
+	// panic after Next() in a global middleware that parked before, caching on, a 404 and the same key in between
+	add("hook-middleware", gCase{cache: 1, mna: true, onPanic: 80,
+		progs:  map[int]string{80: "E801,GD:6b31,P,ST503,W:" + hx("r;"), 1: "P,SD:6b31:31,N,X", 2: "N,P", 100: "SP,W:64", 101: "P,W:73"},
+		uses:   [][]int{{1}, {2}},
+		routes: []gRoute{{gid: -1, methods: get, pattern: "/d0/{id}", main: 100}, {gid: -1, methods: get, pattern: "/s0", main: 101}},
+		reqs:   []ccReq{{"GET", "/d0/7"}, {"GET", "/s0"}, {"GET", "/nope"}, {"GET", "/d0/7"}},
+		sched:  []int{0, 0, 0, 1, 2, 3, 1, 0, 3, 2, 1, 3, 3}})
 	return out
 }
 
 /**************** generator ****************/
+
+// ccxHookStream (drawn after everything else of the case; one case in six): an OnPanic hook that parks (program 80:
+// sets a status, writes a body), and one or two handlers of the chains that panic (`X`). In half of the cases the
+// schedule starts with a round in which every request in turn gets a few steps, so that some request is parked in
+// its hook while the others start. These cases are outside the Lean model and are checked by the oracles.
+func ccxHookStream(r *Rand, g *gCase, nReq int) bool {
+	if !r.Chance(1, 6) {
+		return false
+	}
+	var hook []string
+	if r.Chance(3, 4) {
+		hook = append(hook, "P")
+	}
+	hook = append(hook, "E801")
+	if r.Chance(1, 2) {
+		hook = append(hook, "GD:"+hx("k1"))
+	}
+	hook = append(hook, fmt.Sprintf("ST%d", r.PickInt([]int{500, 500, 503})), "W:"+hx("rec;"))
+	if r.Chance(1, 2) {
+		hook = append(hook, "P")
+	}
+	g.progs[80] = strings.Join(hook, ",")
+	g.onPanic = 80
+	var cands []int
+	for _, u := range g.uses {
+		cands = append(cands, u...)
+	}
+	for _, rt := range g.routes {
+		cands = append(cands, rt.main, rt.main, rt.main)
+		for _, c := range rt.useCalls {
+			cands = append(cands, c...)
+		}
+	}
+	for i, n := 0, r.Range(1, 2); i < n; i++ {
+		id := cands[r.Intn(len(cands))]
+		var acts []string
+		if g.progs[id] != "" {
+			acts = strings.Split(g.progs[id], ",")
+		}
+		p := r.Intn(len(acts) + 1)
+		acts = append(acts[:p:p], append([]string{"X"}, acts[p:]...)...)
+		g.progs[id] = strings.Join(acts, ",")
+	}
+	if r.Chance(1, 2) {
+		var first []int
+		for i := 0; i < nReq; i++ {
+			for k, n := 0, r.Range(1, 4); k < n; k++ {
+				first = append(first, i)
+			}
+		}
+		g.sched = append(first, g.sched...)
+	}
+	return true
+}
 
 func (concEngine) Gen(r *Rand, tier string) Case {
 	g, tag := ccGenCase(r, tier == "thorough", 0)
@@ -672,9 +744,13 @@ func ccGenCase(r *Rand, thorough bool, nReqForce int) (*gCase, string) {
 		}
 		copyStream = true
 	}
+	hookStream := ccxHookStream(r, g, nReq)
 	tag := fmt.Sprintf("n%d", nReq)
 	if copyStream {
 		tag = "copy/" + tag
+	}
+	if hookStream {
+		tag = "hook/" + tag
 	}
 	if g.cache >= 0 {
 		tag += fmt.Sprintf("/cache%d", g.cache)
